@@ -1,4 +1,49 @@
-/- Driver.C04 — stream `C04` (stub: replaced when the property's model is built). -/
+/-
+  Driver.C04 — stream `C04`: lock-step histories (wire format: Driver.DomWire).
+  Output: one entry per state, `(ret world)`; the first entry is the initial world (`ret` = init).
+    world := ( elem* )  sorted by uid
+    elem  := ( uid "name" sc (block*) (child*) "text" parent owner nav probes )
+    nav   := ( firstChild lastChild firstElementChild lastElementChild nextSibling previousSibling
+               nextElementSibling previousElementSibling peers childElementCount hasChildNodes (desc*) )
+    probes: hasChild / contains of this element against the probe uids (all uids when the world has at
+            most 10 elements, else uid 0 and the target of the call)
+  A call outside the model ends the output with `(outside)`.
+-/
+import Driver.DomWire
 namespace Driver.C04
-def run (_payload : String) : String := "unimplemented"
+open AHP AHP.Sexp AHP.Dom Driver.DomWire
+
+def probeSet (w : World) (t : Nat) : List Nat :=
+  let all := (allElems w).map (·.1.id)
+  if all.length ≤ 10 then all else [0, t].eraseDups
+
+def elemSx (w : World) (ps : List Nat) (e : Meta × List DN) : Sexp :=
+  let m := e.1
+  let bs := e.2
+  .list [natAtom m.id, strAtom m.name, sym (if m.sc then "1" else "0"), .list (bs.map blockSx),
+         .list (m.children.map natAtom), strAtom m.text, optNat m.parent, optNat m.owner,
+         .list [valSx (firstChild bs), valSx (lastChild bs), valSx (firstElementChild m), valSx (lastElementChild m),
+                valSx (nextSibling w m), valSx (previousSibling w m), valSx (nextElementSibling w m),
+                valSx (previousElementSibling w m), valSx (getPeers w m), natAtom (childElementCount m),
+                sym (if hasChildNodes m then "true" else "false"), .list ((descL bs).map natAtom)],
+         bits (ps.map (hasChild m) ++ ps.map (containsUid m bs))]
+
+def worldSx (w : World) (t : Nat) : Sexp :=
+  .list ((allElems w).map (elemSx w (probeSet w t)))
+
+def loop : World → List Op → List Sexp → List Sexp
+  | _, [], acc => acc.reverse
+  | w, op :: ops, acc =>
+    match step w op with
+    | none => (.list [sym "outside"] :: acc).reverse
+    | some (w', v) => loop w' ops (.list [valSx v, worldSx w' (opTarget op)] :: acc)
+
+def run (payload : String) : String :=
+  match Sexp.parse payload with
+  | some sx =>
+    match toCase sx with
+    | some c => (Sexp.list (loop c.world c.ops [.list [sym "init", worldSx c.world 0]])).render
+    | none => "bad-case"
+  | none => "bad-case"
+
 end Driver.C04
